@@ -33,5 +33,24 @@ func VerifRun() {
 		StepContracts(&pre, choice)
 		StatePredicates("")
 	}
+	// fixed-point probe: no reconcile (fault free, crash free) changes the final state
+	if verifrt.NondetBool("probe") {
+		fixed := true
+		n := ChCfg
+		if WithSync {
+			n = ChAppend
+		}
+		for c := 0; c < n; c++ {
+			snap := S
+			P = Params{CrashAfter: -1}
+			Step(c)
+			S.Crashes, S.Faults = snap.Crashes, snap.Faults
+			if S != snap {
+				fixed = false
+			}
+			S = snap
+		}
+		verifrt.Region("fixed-point", fixed)
+	}
 	verifrt.Cover("ran")
 }
